@@ -1,4 +1,5 @@
 import TaskctlVerif.Model.Vars
+import TaskctlVerif.Model.VarsHeap
 import TaskctlVerif.Props.C09
 import TaskctlVerif.Props.C07
 /-!
@@ -129,3 +130,113 @@ theorem C10_undefined_fails_before (t : TaskSpec) (pre post : List (Nat × Nat))
   simp [execute, hundef, CmdResult.began, beforeToks]
 
 end Runner
+
+/-! ## The variables container behaves like a plain map, and building a new one never touches the old
+(`Model/VarsHeap.lean`) -/
+namespace VarsHeap
+
+theorem lookup_filter_ne (c : Cont) (k k' : String) (h : k' ≠ k) :
+    (c.filter (fun e => e.1 != k)).lookup k' = c.lookup k' := by
+  induction c with
+  | nil => rfl
+  | cons e rest ih =>
+    simp only [List.filter_cons]
+    by_cases he : e.1 = k
+    · have hk : k' ≠ e.1 := by rw [he]; exact h
+      simp only [he, bne_self_eq_false, Bool.false_eq_true, if_false, ih]
+      rw [List.lookup_cons]
+      have : (k' == e.1) = false := by simpa using hk
+      rw [this]
+    · have : (e.1 != k) = true := by simpa using he
+      simp only [this, if_true]
+      rw [List.lookup_cons, List.lookup_cons, ih]
+
+/-- `Set` -/
+theorem lookup_cset (c : Cont) (k v k' : String) :
+    (cset c k v).lookup k' = if k' = k then some v else c.lookup k' := by
+  unfold cset
+  rw [List.lookup_cons]
+  by_cases h : k' = k
+  · simp [h]
+  · have : (k' == k) = false := by simpa using h
+    simp only [this, h, if_false]
+    exact lookup_filter_ne c k k' h
+
+/-- `Merge`: the argument's binding if it has one, else the receiver's -/
+theorem lookup_cmerge (dst src : Cont) (k : String) :
+    (cmerge dst src).lookup k = (src.lookup k).orElse (fun _ => dst.lookup k) := by
+  induction src with
+  | nil => simp [cmerge]
+  | cons e rest ih =>
+    have hstep : cmerge dst (e :: rest) = cset (cmerge dst rest) e.1 e.2 := rfl
+    rw [hstep, lookup_cset, List.lookup_cons]
+    by_cases h : k = e.1
+    · simp [h]
+    · have : (k == e.1) = false := by simpa using h
+      simp only [h, if_false, this, ih]
+
+/-- `With`: the new binding wins, everything else is the receiver's -/
+theorem lookup_cwith (c : Cont) (k v k' : String) :
+    (cwith c k v).lookup k' = if k' = k then some v else c.lookup k' := by
+  unfold cwith
+  rw [lookup_cset, lookup_cmerge]
+  by_cases h : k' = k
+  · simp [h]
+  · simp only [h, if_false]
+    cases c.lookup k' <;> simp
+
+/-- **the container is a map**: what `Get` and `Has` answer after `Set`, `Merge` and `With` -/
+theorem C10_container_is_map (a b : Cont) (k v k' : String) :
+    cget (cset a k v) k' = (if k' = k then v else cget a k') ∧
+    cget (cmerge a b) k' = (if chas b k' then cget b k' else cget a k') ∧
+    cget (cwith a k v) k' = (if k' = k then v else cget a k') ∧
+    (chas (cmerge a b) k' = (chas b k' || chas a k')) ∧
+    (chas (cwith a k v) k' = (decide (k' = k) || chas a k')) := by
+  unfold cget chas
+  rw [lookup_cset, lookup_cmerge, lookup_cwith]
+  refine ⟨?_, ?_, ?_, ?_, ?_⟩
+  · split <;> simp
+  · cases b.lookup k' <;> simp
+  · split <;> simp
+  · cases b.lookup k' <;> simp
+  · by_cases h : k' = k <;> simp [h]
+
+theorem heap_get_append_left (h : Heap) (x : Cont) (i : Nat) (hi : i < h.length) :
+    (h ++ [x])[i]? = h[i]? := by
+  rw [List.getElem?_append_left hi]
+
+/-- **building a new container never touches an existing one**: after any operation other than a
+`Set` on container `i` itself, container `i` is what it was - `Merge` and `With` put their result
+in a fresh container, `Get`, `Has` and `Map` change nothing -/
+theorem C10_container_isolation (h : Heap) (op : Op) (i : Nat) (hi : i < h.length)
+    (hne : ∀ k v, op ≠ .set i k v) : (step h op).1[i]? = h[i]? := by
+  cases op with
+  | new => exact heap_get_append_left h [] i hi
+  | set c k v =>
+    simp only [step]
+    split
+    · have hc : c ≠ i := fun hci => hne k v (by rw [hci])
+      simp [List.getElem?_set, hc]
+    · rfl
+  | get c k => simp only [step]; split <;> rfl
+  | has c k => simp only [step]; split <;> rfl
+  | merge a b =>
+    simp only [step]
+    split
+    · exact heap_get_append_left h _ i hi
+    · rfl
+  | with_ c k v =>
+    simp only [step]
+    split
+    · exact heap_get_append_left h _ i hi
+    · rfl
+  | dump c => simp only [step]; split <;> rfl
+
+-- a chain as the runner builds it: runner env, a context's env merged over it, TASK_NAME set with With, the
+-- task's env merged over that; the originals are untouched
+example : (runOps [] [.new, .set 0 "A" "runner", .set 0 "TASK_NAME" "stale", .new, .set 1 "A" "context", .merge 0 1,
+    .with_ 2 "TASK_NAME" "build", .get 3 "A", .get 3 "TASK_NAME", .get 0 "A", .get 0 "TASK_NAME", .has 1 "TASK_NAME"]).2 =
+    ["0", "ok", "ok", "1", "ok", "2", "3", "=context", "=build", "=runner", "=stale", "no"] := by decide
+
+end VarsHeap
+
